@@ -341,3 +341,81 @@ func headerRebindLint(w *World, r *Report, rule string, why string, names ...str
 	r.addRaw(rule, "-", "definitions in the embedded headers", "-", "discharged", fmt.Sprintf("%d definitions in %d files, none of %s", nd, n, strings.Join(names, ", ")))
 	r.floor(rule, "embedded header files", n, 3)
 }
+
+// monotoneAtomLint: where header code looks at an atom twice in one function body - (contains? @mem key) and
+// then (get @mem key) - the two reads agree only as long as nothing the first read saw can have gone by the
+// second: every swap! on that atom adds to the current value (assoc / conj / merge applied to the value
+// itself). An update that can also start the table over, or remove from it, makes the check-then-read pair
+// answer nil for a key that was there.
+func monotoneAtomLint(w *World, r *Report, rule string) {
+	r.rule(rule, "an atom of the embedded headers that some function reads twice in one body (a membership test followed by a read) only ever grows: every swap! on it applies assoc, conj or merge to the current value itself - directly, or in a (fn [m …] (assoc m …)) whose first operand is its own parameter")
+	files, err := w.lispFiles()
+	if err != nil {
+		r.undecided(rule, nil, "lisp headers", token.NoPos, err.Error())
+		return
+	}
+	countDerefs := func(s *sx, a string) int {
+		n := 0
+		s.walk(func(x *sx) {
+			if x.head() == "deref" && len(x.items) == 2 && x.items[1].kind == "sym" && x.items[1].text == a {
+				n++
+			}
+		})
+		return n
+	}
+	grows := map[string]bool{"assoc": true, "conj": true, "merge": true, "cons": true, "inc": true, "+": true}
+	n := 0
+	for _, f := range files {
+		for _, form := range f.forms {
+			// atoms bound by let: (let [a (atom …)] body…)
+			form.walk(func(s *sx) {
+				if s.head() != "let" || len(s.items) < 3 || (s.items[1].kind != "list" && s.items[1].kind != "vector") {
+					return
+				}
+				bs := s.items[1].items
+				for i := 0; i+1 < len(bs); i += 2 {
+					if bs[i].kind != "sym" || bs[i+1].head() != "atom" {
+						continue
+					}
+					a := bs[i].text
+					// read twice in one fn body?
+					twice := false
+					for _, b := range s.items[2:] {
+						b.walk(func(x *sx) {
+							if x.head() == "fn" && countDerefs(x, a) >= 2 {
+								twice = true
+							}
+						})
+					}
+					if !twice {
+						continue
+					}
+					for _, b := range s.items[2:] {
+						b.walk(func(x *sx) {
+							if x.head() != "swap!" || len(x.items) < 3 || x.items[1].kind != "sym" || x.items[1].text != a {
+								return
+							}
+							n++
+							upd := x.items[2]
+							ok := false
+							switch {
+							case upd.kind == "sym":
+								ok = grows[upd.text]
+							case upd.head() == "fn" && len(upd.items) >= 3 && len(upd.items[1].items) >= 1:
+								p := upd.items[1].items[0].text
+								body := upd.items[len(upd.items)-1]
+								ok = body.kind == "list" && len(body.items) >= 2 && body.items[0].kind == "sym" && grows[body.items[0].text] && body.items[1].kind == "sym" && body.items[1].text == p
+							}
+							status, detail := "discharged", "the update adds to the current value"
+							if !ok {
+								status, detail = "violated", "the atom "+a+" is read twice by the code around it (test, then read) but this update does not simply add to the current value ("+cut(upd.String(), 70)+"): when it drops entries between the two reads of another evaluation, that evaluation gets nil for a key it has just found"
+							}
+							r.addRaw(rule, f.path, "(swap! "+a+" …) on an atom that is read twice", fmt.Sprintf("%s:%d", f.path, x.line), status, detail)
+						})
+					}
+				}
+			})
+		}
+	}
+	r.floor(rule, "updates of atoms that are read twice", n, 1)
+}
